@@ -153,6 +153,17 @@ Definition join_val (v v2 : value) : value :=
   mkv (vseq v ++ vseq v2) (match vqual v with [] => [] | q => q ++ quals_or_default v2 end) (vmm v) (vfeat v) (vmate v).
 Definition join_val_orig (v v2 : value) : value := mkv (vseq v ++ vseq v2) (vqual v) (vmm v) (vfeat v) (vmate v).
 
+(** round 3 — in-place edits that touch no other buffer: Clear (the sequence becomes empty, its buffer stays),
+    ClearQualities, WriteQualities / WriteByteQualities (append scores), Grow (reserve room: no value changes) *)
+Inductive edit := EClear | EClearQ | EWriteQ (q : list N) | EGrow.
+Definition apply_edit (e : edit) (v : value) : value :=
+  match e with
+  | EClear => mkv [] (vqual v) (vmm v) (vfeat v) (vmate v)
+  | EClearQ => mkv (vseq v) [] (vmm v) (vfeat v) (vmate v)
+  | EWriteQ q => mkv (vseq v) (vqual v ++ q) (vmm v) (vfeat v) (vmate v)
+  | EGrow => v
+  end.
+
 Inductive op :=
 | ONew (s q : list N) (m : option mmap) (f : list N) (lower : bool)   (* lower = false: built through Write/WriteString/WriteByte *)
 | OCopy (r : nat)
@@ -171,7 +182,8 @@ Inductive op :=
 | OPair (r r2 : nat)
 | OUnpair (r : nat)
 | ORecycle (r : nat)
-| ONop.                                                   (* pool churn / GC: no effect on any object *)
+| ONop                                                    (* pool churn / GC: no effect on any object *)
+| OEdit (r : nat) (e : edit).                             (* Clear / ClearQualities / WriteQualities / Grow *)
 
 (** registers name objects (an in-place operation returns the object it was applied to: the new
     register is an alias); objects are values — this IS the "no shared mutable state" semantics the
@@ -245,6 +257,7 @@ Definition step (st : state) (o : op) : (status * Z * Z) * state :=
   | ORecycle r => on r (fun ob _ =>
       quiet (mks (map (fun x => match x with Some o' => if Nat.eqb o' ob then None else x | None => None end) (regs st)) (objs st)))
   | ONop => quiet st
+  | OEdit r e => on r (fun ob v => quiet (set_obj st ob (apply_edit e v)))
   end.
 
 Fixpoint run (st : state) (ops : list op) : list (status * Z * Z) * state :=
@@ -318,3 +331,32 @@ Definition lsetseq (st : lstate) (r : nat) (s : list N) : lstate :=
   let ob := nth r (lregs st) 0%nat in
   mkl (lregs st) (upd ob (s, snd (nth ob (lobjs st) ([], None))) (lobjs st)).
 Definition lread (st : lstate) (r : nat) : list N := fst (nth (nth r (lregs st) 0%nat) (lobjs st) ([], None)).
+
+(** ---------------- round 3: the accessors Composition() and QualitiesString() *)
+(** Composition: a map with the keys a c g t o at 0, then per symbol: (char | 32) in {a,c,g,t} -> counts[char]++ (the key is the symbol
+    AS WRITTEN: an upper-case A gets its own key), anything else -> counts[o]++. The map as a key-sorted list. *)
+Definition comp_slot (c : N) : N :=
+  let l := N.lor c 32 in if (l =? 97) || (l =? 99) || (l =? 103) || (l =? 116) then c else 111.
+Fixpoint cnt_add (k : N) (m : list (N * N)) : list (N * N) :=
+  match m with
+  | [] => [(k, 1)]
+  | (k', n) :: m' => if k =? k' then (k', n + 1) :: m' else if k <? k' then (k, 1) :: m else (k', n) :: cnt_add k m'
+  end.
+Definition comp5 (a c g o t : N) : list (N * N) := [(97, a); (99, c); (103, g); (111, o); (116, t)].
+Definition composition (s : list N) : list (N * N) := fold_left (fun m x => cnt_add (comp_slot x) m) s (comp5 0 0 0 0 0).
+(** QualitiesString: scores above 93 are written as 93, then the shift (33 by default) is added, in byte arithmetic *)
+Definition qual_string (shift : N) (q : list N) : list N := map (fun x => ((if 93 <? x then 93 else x) + shift) mod 256) q.
+
+(** correspondence of the two accessors: symbols, stored scores ([] = none: the default vector of 40s is printed), observed
+    composition (key-sorted) and observed QualitiesString *)
+Record xcase := mkx { xseq : list N; xqual : list N; xcomp : list (N * N); xqstr : list N }.
+Definition pairN_eqb (a b : N * N) : bool := (fst a =? fst b) && (snd a =? snd b).
+Definition xcase_ok (c : xcase) : bool :=
+  list_eqb pairN_eqb (composition (xseq c)) (xcomp c) &&
+  nlist_eqb (qual_string 33 (quals_or_default (mkv (xseq c) (xqual c) None [] None))) (xqstr c).
+Fixpoint xmismatches_from (i : nat) (l : list xcase) : list nat :=
+  match l with
+  | [] => []
+  | c :: l' => let rest := xmismatches_from (S i) l' in if xcase_ok c then rest else i :: rest
+  end.
+Definition xmismatches := xmismatches_from 0.
